@@ -107,17 +107,12 @@ func (fg *FG) assumeTyped(x Val, st *State) {
 	if x.Ty == nil {
 		return
 	}
-	if f := fg.sorts.rangeFact(x.Ty, x.T); f != "" {
-		fg.assume(f)
-	}
+	alloc := ""
 	if st != nil {
-		a := fg.heap(st, "$alloc", "Int")
-		switch types.Unalias(x.Ty).Underlying().(type) {
-		case *types.Pointer, *types.Map, *types.Chan:
-			fg.assume(fmt.Sprintf("(< %s %s)", x.T, a))
-		case *types.Slice:
-			fg.assume(fmt.Sprintf("(< (s.arr %s) %s)", x.T, a))
-		}
+		alloc = fg.heap(st, "$alloc", "Int")
+	}
+	if f := fg.wfTerm(x.Ty, x.T, 0, alloc); f != "" {
+		fg.assume(f)
 	}
 }
 
